@@ -25,6 +25,9 @@ CHECKS = {
  "C10": dict(cat="translation_validation", sec="4 (C10)", technique="generated constant expressions evaluated three ways (LLVM constant folding via `const`, run time via a local variable, reference interpreter); array-length and size-of templates against a layout model",
    text="Random UB-free constant expressions are emitted both as `const` and as a local initialiser and printed; arrays whose length is a named constant expression are passed by name, view, slice pointer, pointer-to-array, row, member and constant through two call levels with |x| printed everywhere; random structs/words print |:S|, |:[k]S| at run time and through constants. All printed values must equal each other and the reference model.",
    note="Trusted: reference interpreter and the C-layout model (integer alignment min(size,8)); under-filled words are not generated."),
+ "C11": dict(cat="exploration", sec="4 (C11)", technique="metamorphic testing under permutation of top-level declarations (with and without planted faults), random dependency graphs with planted cycles against a dependency/size model, exhaustive table of documented type/position cells, templated ill-formed declarations",
+   text="Every generated program must get the same verdict, the same diagnostics and the same run-time behaviour (equal to the reference interpreter) in the generated, reversed and random orders of its top-level declarations; acyclic constant/structure graphs must be accepted with the modelled values and sizes, cyclic ones rejected with E413/E415/E416; every documented type/position cell and every kind of duplicate, over-filled word and non-constant array length must produce its documented code.",
+   note="Trusted: reference interpreter, the dependency/size model in harness/src/c11.rs; cells the documentation does not settle are not asserted."),
  "C12": dict(cat="exploration", sec="4 (C12)", technique="metamorphic testing: generated programs split over 2-4 files with computed pub/import closure, compiled in many file orders and compared with the single-file reference interpreter; negative mutants (missing pub / import); compile histories through one Compiler compared with compile-alone IR",
    text="A split program must be accepted in every order of the file list and behave exactly like the single-file program; removing one needed `pub` or `import` (also when only transitively reachable) must be rejected with E401/E402/E405; a module's IR must be byte-identical whether it is compiled alone or after other unrelated modules.",
    note="Trusted: the dependency closure in harness/src/modsplit.rs and the reference interpreter."),
